@@ -36,7 +36,7 @@ def cells(tier, seed):
     out = []
     Ds = (1, 2, 3) if tier == "quick" else (1, 2, 3, 4, 5)
     Rs = (1, 3) if tier == "quick" else (1, 2, 4)
-    reps = 2 if tier == "quick" else 6
+    reps = 2 if tier == "quick" else 8
     for mk in build.MEASURE_KINDS:
         for R in Rs:
             for D in Ds:
